@@ -154,7 +154,9 @@ func Forany[T any](pred func(T) bool, s []T) bool {
 }
 
 func PushLast[T any](elem T, s []T) []T {
-	return append(s, elem)
+	// Limit the capacity to the length so that append always copies:
+	// appending in place would overwrite elements owned by other slice values.
+	return append(s[:len(s):len(s)], elem)
 }
 
 func PushHead[T any](elem T, s []T) []T {
